@@ -129,10 +129,17 @@ def _infer_dtype(a, kind):
 INT_RANGE = {"int8": (-128, 256), "int16": (-32768, 65536), "int32": (-2 ** 31, 2 ** 32), "int64": (-2 ** 63, 2 ** 64), "uint8": (0, 256)}
 
 
+WRAP_SYMBOLIC = [False]
+
+
 def wrap_int(v, dtype):
     """two's-complement wrap of a CONCRETE integer stored into a fixed-width integer array (symbolic values are left
     unwrapped: value ranges of symbolic data are bounded far below every width by the harnesses)"""
     r = INT_RANGE.get(dtype)
+    if r is not None and WRAP_SYMBOLIC[0] and isinstance(v, core.SInt):
+        # opt-in (a harness whose claim is about magnitudes): symbolic stores wrap too
+        lo, mod = r
+        return core.lift((core.zn(v) - lo) % mod + lo)
     if r is None or isinstance(v, (Sym, bool)) or not isinstance(v, (int, np.integer)):
         return v
     lo, mod = r
